@@ -51,27 +51,36 @@ const (
 	exCont
 )
 
+// a deferred call, with the frame it was registered in
+type dcall struct {
+	call *ast.CallExpr
+	fr   *frame
+}
+
 type state struct {
 	held      []heldLock
-	defers    []*ast.CallExpr
+	defers    []dcall
+	outer     [][]dcall // deferred calls of the enclosing activations, innermost last
 	relUnheld bool
 }
 
 type flow struct {
 	segs []seg
+	ctx  []seg // what precedes segs when segs is the body of a loop / callback under analysis
 	st   state
 	exit int
 	ret  []target
 }
 
 func (f flow) clone() flow {
-	n := flow{exit: f.exit, ret: f.ret}
+	n := flow{exit: f.exit, ret: f.ret, ctx: f.ctx}
+	n.st.outer = f.st.outer
 	n.segs = make([]seg, len(f.segs))
 	for i, s := range f.segs {
 		n.segs[i] = seg{Iter: s.Iter, Code: append([]act(nil), s.Code...), Alts: s.Alts}
 	}
 	n.st.held = append([]heldLock(nil), f.st.held...)
-	n.st.defers = append([]*ast.CallExpr(nil), f.st.defers...)
+	n.st.defers = append([]dcall(nil), f.st.defers...)
 	n.st.relUnheld = f.st.relUnheld
 	return n
 }
@@ -94,6 +103,45 @@ func (f *flow) emitIter(alts [][]act) {
 type analyzer struct {
 	w  *world
 	in *instance
+	// panic exits of the method under analysis (see mayPanic)
+	panics   [][]seg
+	inPanic  bool
+	noPanics bool
+}
+
+// mayPanic: the operation just analysed (a call into other code, an index expression) may panic.
+// If the thread holds a lock at that point, the panic exit is a path of its own: what has run so
+// far, then the deferred calls of every activation, innermost first.  (A recovered panic leaves the
+// goroutine running; whether the locks were released is exactly what [ok] checks on that path.)
+func (a *analyzer) mayPanic(fr *frame, f flow) {
+	if a.inPanic || a.noPanics || len(f.st.held) == 0 {
+		return
+	}
+	a.inPanic = true
+	defer func() { a.inPanic = false }()
+	g := f.clone()
+	g.segs = append(append([]seg(nil), g.ctx...), g.segs...)
+	g.ctx = nil
+	cur := []flow{g}
+	stacks := [][]dcall{f.st.defers}
+	for i := len(f.st.outer) - 1; i >= 0; i-- {
+		stacks = append(stacks, f.st.outer[i])
+	}
+	for _, ds := range stacks {
+		for i := len(ds) - 1; i >= 0; i-- {
+			var next []flow
+			for _, x := range cur {
+				x.st.defers = nil
+				x.st.outer = nil
+				x.exit = exFall
+				next = append(next, a.call(ds[i].call, ds[i].fr, x)...)
+			}
+			cur = next
+		}
+	}
+	for _, x := range cur {
+		a.panics = append(a.panics, normalize(x.segs))
+	}
 }
 
 // ---- resolving selector chains -----------------------------------------------------------------
@@ -523,9 +571,17 @@ func (a *analyzer) expr(e ast.Expr, fr *frame, f flow) []flow {
 		}
 		return a.expr(x.X, fr, f)
 	case *ast.IndexExpr:
-		return a.exprs([]ast.Expr{x.X, x.Index}, fr, []flow{f})
+		outs := a.exprs([]ast.Expr{x.X, x.Index}, fr, []flow{f})
+		for i := range outs {
+			a.mayPanic(fr, outs[i]) // index out of range
+		}
+		return outs
 	case *ast.SliceExpr:
-		return a.exprs([]ast.Expr{x.X, x.Low, x.High, x.Max}, fr, []flow{f})
+		outs := a.exprs([]ast.Expr{x.X, x.Low, x.High, x.Max}, fr, []flow{f})
+		for i := range outs {
+			a.mayPanic(fr, outs[i])
+		}
+		return outs
 	case *ast.CompositeLit:
 		var es []ast.Expr
 		for _, el := range x.Elts {
@@ -645,6 +701,7 @@ func (a *analyzer) call(c *ast.CallExpr, fr *frame, f flow) []flow {
 				outs := a.exprs(plain, fr, []flow{f})
 				for i := range outs {
 					a.blk(&outs[i], fr, "call of a function stored in "+fr.taint[id.Name])
+					a.mayPanic(fr, outs[i])
 				}
 				return a.runCallbacks(callbacks, nil, fr, outs)
 			}
@@ -712,6 +769,7 @@ func (a *analyzer) funcCall(c *ast.CallExpr, name string, plain []ast.Expr, call
 		if known && fe.Blk != "" {
 			a.blk(&outs[i], fr, "call "+name)
 		}
+		a.mayPanic(fr, outs[i])
 	}
 	return a.runCallbacks(callbacks, nil, fr, outs)
 }
@@ -736,6 +794,7 @@ func (a *analyzer) methodOn(c *ast.CallExpr, name string, t target, callbacks []
 		return a.inline(c, name, t, fr, f)
 	case tFile:
 		a.rd(&f, t.path)
+		a.mayPanic(fr, f)
 		return a.runCallbacks(callbacks, nil, fr, []flow{f})
 	case tRefPtr, tContents:
 		loc := t.path
@@ -751,6 +810,7 @@ func (a *analyzer) methodOn(c *ast.CallExpr, name string, t target, callbacks []
 			a.wr(&f, loc)
 			accs = []act{{Op: "Wr", Name: a.in.canon(loc)}}
 		}
+		a.mayPanic(fr, f)
 		return a.runCallbacks(callbacks, accs, fr, []flow{f})
 	}
 	failf("%s: unsupported method call %s", fr.site, exprString(fr.pkg.fset, c.Fun))
@@ -768,7 +828,7 @@ func (a *analyzer) runCallbacks(callbacks []*ast.FuncLit, accs []act, fr *frame,
 		var alts [][]act
 		for _, lit := range callbacks {
 			a.collectAliases(lit.Body, fr)
-			outs := a.execBody(lit.Body, fr, flow{st: state{held: f.st.held}})
+			outs := a.execBody(lit.Body, fr, flow{st: state{held: f.st.held, defers: f.st.defers, outer: f.st.outer}, ctx: append(append([]seg(nil), f.ctx...), f.segs...)})
 			for _, o := range outs {
 				if !sameHeld(o.st.held, f.st.held) {
 					failf("%s: a callback changes the lock state", fr.site)
@@ -871,6 +931,8 @@ func (a *analyzer) inline(c *ast.CallExpr, name string, t target, fr *frame, f f
 // execBody runs a function body as its own activation: its defers run when it returns
 func (a *analyzer) execBody(body *ast.BlockStmt, fr *frame, f flow) []flow {
 	saved := f.st.defers
+	savedOuter := f.st.outer
+	f.st.outer = append(append([][]dcall(nil), f.st.outer...), saved)
 	f.st.defers = nil
 	f.exit = exFall
 	outs := a.stmts(body.List, fr, []flow{f})
@@ -886,12 +948,13 @@ func (a *analyzer) execBody(body *ast.BlockStmt, fr *frame, f flow) []flow {
 			for _, g := range cur {
 				g.st.defers = nil
 				g.exit = exFall
-				next = append(next, a.call(ds[i], fr, g)...)
+				next = append(next, a.call(ds[i].call, ds[i].fr, g)...)
 			}
 			cur = next
 		}
 		for _, g := range cur {
 			g.st.defers = saved
+			g.st.outer = savedOuter
 			g.exit = exFall
 			g.ret = o.ret
 			res = append(res, g)
@@ -908,6 +971,9 @@ func (a *analyzer) spawn(lit *ast.FuncLit, fr *frame, f flow, escaping bool) []f
 	sub.site = fmt.Sprintf("%s/go%d", fr.site, k)
 	a.collectAliases(lit.Body, &sub)
 	savedBlk := len(a.in.Blk)
+	wasNo := a.noPanics
+	a.noPanics = true
+	defer func() { a.noPanics = wasNo }()
 	outs := a.execBody(lit.Body, &sub, flow{})
 	handoff := false
 	if !escaping {
@@ -1081,7 +1147,7 @@ func (a *analyzer) stmt(s ast.Stmt, prev ast.Stmt, fr *frame, f flow) []flow {
 		}
 		outs := a.exprs(args, fr, []flow{f})
 		for i := range outs {
-			outs[i].st.defers = append(append([]*ast.CallExpr(nil), outs[i].st.defers...), x.Call)
+			outs[i].st.defers = append(append([]dcall(nil), outs[i].st.defers...), dcall{x.Call, fr})
 		}
 		return outs
 	case *ast.GoStmt:
@@ -1219,7 +1285,7 @@ func (a *analyzer) clauses(body *ast.BlockStmt, fr *frame, in []flow) []flow {
 
 // loop: for cond { body; post } / range.  per: accesses repeated at the head of every iteration.
 func (a *analyzer) loop(cond ast.Expr, post ast.Stmt, per []act, body *ast.BlockStmt, fr *frame, f flow) []flow {
-	head := flow{st: state{held: f.st.held, defers: f.st.defers}}
+	head := flow{st: state{held: f.st.held, defers: f.st.defers, outer: f.st.outer}, ctx: append(append([]seg(nil), f.ctx...), f.segs...)}
 	for _, x := range per {
 		head.emit(x)
 	}
@@ -1373,7 +1439,19 @@ func (w *world) analyseInstance(name string) *instance {
 			imports: importNames(root.pkg.fileOf[m]), alias: map[string][]target{}, taint: map[string]string{},
 			site: name + "." + n, goCount: &goCount}
 		a.collectAliases(m.Body, fr)
+		a.panics = nil
 		outs := a.execBody(m.Body, fr, flow{})
+		pp := methodPaths{Name: n}
+		pseen := map[string]bool{}
+		for _, p := range a.panics {
+			if k := fmt.Sprint(p); !pseen[k] {
+				pseen[k] = true
+				pp.Paths = append(pp.Paths, p)
+			}
+		}
+		if _, no := root.spec.NotOps[n]; !no && len(pp.Paths) > 0 {
+			in.Panics = append(in.Panics, pp)
+		}
 		mp := methodPaths{Name: n}
 		seen := map[string]bool{}
 		for _, o := range outs {
